@@ -12,7 +12,7 @@ import numpy as np
 from . import common, textmut
 
 PID = 'C14'
-TARGETS = ['KyupyVerif.Props.C14']
+TARGETS = ['KyupyVerif.Props.C14', 'KyupyVerif.Props.C14Wave']
 RULE = ('random netlists (1-4 inputs, 1-7 cells of NANGATE/SAED32/SAED90 with 1-6 input and 1-2 output pins, fan-out, output '
         'ports, unconnected pins, escaped instance/wire names) through verilog.parse x {branchforks} x random SDF texts: '
         'IOPATH per (instance, input pin) unqualified / posedge / negedge / both edges, one or two value lists, triple forms '
@@ -22,13 +22,26 @@ RULE = ('random netlists (1-4 inputs, 1-7 cells of NANGATE/SAED32/SAED90 with 1-
         'coordinate (ground truth unambiguous; negative IOPATH and INTERCONNECT values, all-zero interconnects and '
         'interconnects that are not all-zero although max(max(delvals)) == 0 included); the overlap stream (several '
         'outputs per input pin, duplicates) is model-vs-code only. distinct = (netlist, branchforks, SDF text); non-trivial = at '
-        'least 3 entries and at least one non-zero ground-truth coordinate')
+        'least 3 entries and at least one non-zero ground-truth coordinate. '
+        'clause sdf-wave (timing data path, Props/C14Wave.lean): '
+        'netlists of cells WaveSim schedules (1-4 inputs, one output) x SDF texts with non-negative values on the 1/8 grid x '
+        '{strip_forks} x c_caps 16/32 x three lanes with the three data sets x random multi-transition stimuli: real '
+        'WaveSim(c, delays=df.iopaths(c, tlib) + df.interconnects(c, tlib)) against the composition of the models (driver sdfwave: '
+        'text -> grammar model -> block list -> sdfDelay -> simWave over the op rows of the SimOps model): delay array cell by cell, '
+        'waveform in the region of every output slot and every written signal; every 8th file has no block without INSTANCE name: '
+        'the real df.interconnects() raises TypeError and the model must answer raise:interconnects (sdfDelay = none) — an exception of '
+        'the two annotation calls agrees with that token only, an exception anywhere else never; mismatch = broken tie')
 
 TLIBS = ['NANGATE', 'SAED32', 'SAED90']
 
 
 def theorems():
     return common.theorems_of('KyupyVerif/Props/C14.lean', 'KV.C14')
+
+
+def theorems_wave():
+    """timing data path C14 o C04/C03 (from the SDF text to the WaveSim waveforms)"""
+    return common.theorems_of('KyupyVerif/Props/C14Wave.lean', 'KV.C14')
 
 
 # ---------------------------------------------------------------------------------------------- small helpers
@@ -78,11 +91,12 @@ def triple_text(rng, t):
     return '(' + ':'.join('' if v is None else fmt_val(rng, v) for v in t) + ')'
 
 
-def rand_triple(rng, neg=False, p_empty=0.12):
+def rand_triple(rng, neg=False, p_empty=0.12, grid=False):
     r = rng.random()
     def val():
         q = rng.random()
         if q < 0.1: return 0
+        if grid: return rng.choice([rng.randint(1, 8), rng.randint(1, 40), rng.randint(1, 160)]) * 125   # multiples of 1/8: exact in float32
         v = rng.choice([rng.randint(1, 9), rng.randint(1, 999), rng.randint(1000, 30000), rng.randint(1, 40) * 125])
         return -v if (neg and rng.random() < 0.3) else v
     if r < p_empty: return []
@@ -138,8 +152,15 @@ def sdf_escape(rng, n, p_raw=0.15, p_extra=0.04):
 
 
 # ---------------------------------------------------------------------------------------------- netlist generator
-def gen_netlist(rng, tname, p_special=0.3):
-    cat = catalog(tname)
+def wave_catalog(tname):
+    """cells WaveSim schedules: kind starts with a prefix of sim.kind_prefixes, at most four inputs, one output"""
+    from kyupy import sim
+    return [(k, i, o) for k, i, o in catalog(tname)
+            if len(i) <= 4 and len(o) == 1 and any(k.lower().startswith(pf) for pf in sim.kind_prefixes)]
+
+
+def gen_netlist(rng, tname, p_special=0.3, cat=None):
+    cat = cat or catalog(tname)
     n_in = rng.randint(1, 4)
     n_g = rng.randint(1, 7)
     sigs = {}      # name -> {'driver': ('port', name) | ('pin', inst, opin), 'readers': [('pin', inst, pin) | ('port', name)]}
@@ -236,10 +257,12 @@ def parse_circuit(case):
 
 
 # ---------------------------------------------------------------------------------------------- SDF generator
-def gen_case(rng, kind='oracle', scale_blocks=1.0):
-    """kind 'oracle': at most one entry per array coordinate; 'overlap': anything goes (model-vs-code only)"""
+def gen_case(rng, kind='oracle', scale_blocks=1.0, wave=False, notop=False):
+    """kind 'oracle': at most one entry per array coordinate; 'overlap': anything goes (model-vs-code only);
+    wave: cells WaveSim schedules, values >= 0 on the 1/8 grid, always a top-level block (clause sdf-wave) unless
+    notop: no block without INSTANCE name at all (interconnects() raises; the model answers `none`)"""
     tname = rng.choice(TLIBS)
-    nl = gen_netlist(rng, tname)
+    nl = gen_netlist(rng, tname, cat=wave_catalog(tname)) if wave else gen_netlist(rng, tname)
     bf = rng.random() < 0.5
     overlap = kind == 'overlap'
     p_rep = 0.4 * scale_blocks
@@ -257,7 +280,7 @@ def gen_case(rng, kind='oracle', scale_blocks=1.0):
                 for q in {'both': [None], 'pos': [0], 'neg': [1], 'posneg': [0, 1]}[pat]:
                     spec = p if q is None else f"({'posedge' if q == 0 else 'negedge'} {p})"
                     nv = rng.choice([1, 2, 2])
-                    vals = [rand_triple(rng, neg=rng.random() < 0.1) for _ in range(nv)]
+                    vals = [rand_triple(rng, neg=(rng.random() < 0.1) and not wave, grid=wave) for _ in range(nv)]
                     es.append({'a': spec, 'b': rng.choice(g['outs']), 'vals': vals, 'pin': p,
                                'pols': [0, 1] if q is None else [q]})
         if es: io_entries[g['inst']] = es
@@ -268,10 +291,10 @@ def gen_case(rng, kind='oracle', scale_blocks=1.0):
             if overlap and rng.random() < 0.4: reps += 1
             for _ in range(reps):
                 nv = rng.choice([1, 1, 2])
-                neg = rng.random() < (0.3 if overlap else 0.2)     # negative delays are legal SDF (audit finding 3 / D34)
-                vals = [rand_triple(rng, neg=neg, p_empty=0.3 if overlap else 0.12) for _ in range(nv)]
-                if rng.random() < 0.15: vals = [[0, 0, 0]] if rng.random() < 0.5 else [[]]   # all-zero: skipped, truth 0
-                if rng.random() < 0.12: vals = lexmax_pattern(rng)
+                neg = rng.random() < (0.3 if overlap else 0.2) and not wave     # negative delays are legal SDF (audit finding 3 / D34)
+                vals = [rand_triple(rng, neg=neg, p_empty=0.3 if overlap else 0.12, grid=wave) for _ in range(nv)]
+                if not wave and rng.random() < 0.15: vals = [[0, 0, 0]] if rng.random() < 0.5 else [[]]   # all-zero: skipped, truth 0
+                if not wave and rng.random() < 0.12: vals = lexmax_pattern(rng)
                 ic_entries.append({'sig': s, 'drv': info['driver'], 'dst': rd, 'vals': vals})
     # ---- blocks
     blocks = []   # {'insts': [...], 'sections': [[entry]], 'celltype':..}
@@ -302,6 +325,8 @@ def gen_case(rng, kind='oracle', scale_blocks=1.0):
             blocks.append({'insts': insts, 'sections': sections_of(ents), 'celltype': kinds[inst]})
     top_parts = split_parts(ic_entries, p_rep) if (ic_entries or rng.random() < 0.7) else []
     if kind == 'oracle' and not top_parts and rng.random() < 0.9: top_parts = [[]]
+    if wave and not top_parts: top_parts = [[]]
+    if notop: top_parts = []
     def pin_txt(d):
         return sdf_escape(rng, d[1]) if d[0] == 'port' else sdf_escape(rng, d[1]) + '/' + d[2]
     for part in top_parts:
@@ -309,7 +334,7 @@ def gen_case(rng, kind='oracle', scale_blocks=1.0):
         blocks.append({'insts': [], 'sections': sections_of(ents), 'celltype': 'top', 'no_inst_stmt': rng.random() < 0.1})
     if rng.random() < 0.12:   # a block for an instance that is not in the netlist: warned about and skipped
         blocks.append({'insts': ['ghost\\[7\\]'], 'celltype': 'INV_X1',
-                       'sections': [[{'a': 'A', 'b': 'ZN', 'vals': [[5, 5, 5]], 'io': ('ghost[7]', 'A', [0, 1])}]]})
+                       'sections': [[{'a': 'A', 'b': 'ZN', 'vals': [[125 if wave else 5] * 3], 'io': ('ghost[7]', 'A', [0, 1])}]]})
     if rng.random() < 0.1:    # a block with timing checks only
         blocks.append({'insts': ['tc_only'], 'celltype': 'DFF_X1', 'sections': []})
     rng.shuffle(blocks)
@@ -823,6 +848,203 @@ def run_case(ck, case, kind, mode, notes):
         ck.case(key=(case['verilog'], case['bf'], case['sdf']), nontrivial=len(ents) >= 3, tag=tags + ['stream:overlap'])
 
 
+# ---------------------------------------------------------------------------------------------- clause sdf-wave (Props/C14Wave.lean)
+TICKS = 1000   # one model tick = one thousandth of the SDF time unit (Model/SdfWave.lean)
+
+
+def enc_t(t):
+    from . import wavecorr as wc
+    TMIN, TMAX, TOVL = wc.consts()
+    t = float(t)
+    if t <= TMIN: return 'm'
+    if t == TMAX: return 'M'
+    if t >= TOVL: return 'O'
+    v = t * TICKS
+    if v != round(v) or abs(v) > 2 ** 40: raise wc.OffGrid(t)
+    return str(int(round(v)))
+
+
+def fmt_wv(ents, term):
+    return f"{','.join(enc_t(t) for t in ents) or '-'}:{term}"
+
+
+def read_wv(cc, loc, cap, sim):
+    """what `Wave.rdWave` reads: entries up to the first terminator inside the capacity"""
+    from . import wavecorr as wc
+    TMIN, TMAX, TOVL = wc.consts()
+    ents = []
+    for k in range(cap):
+        t = float(cc[loc + k, sim])
+        if t >= TMAX: return fmt_wv(ents, enc_t(t))
+        ents.append(t)
+    return '?'
+
+
+def eval_wave_case(case):
+    """one sdf-wave case -> list of (what, real, model) mismatches (empty = tie holds), info dict.
+    Real side: sdf.parse(text), df.iopaths + df.interconnects, WaveSim, s_to_c, c_prop. Model side: the `SimOps` model's op rows
+    (driver `net` + `simops`) and the composition `sdfwave` (text -> delays -> waveforms)."""
+    import random
+    from kyupy import sdf
+    from . import wavecorr as wc, simcorr, circ
+    info = {}
+    bad = []
+    c = parse_circuit(case)
+    tlib = get_tlib(case['tlib'])
+    L = len(c.lines)
+    with quiet():
+        df = common.after_failed_parse(sdf.parse, case['sdf'])   # an exception of sdf.parse is NOT tolerated (propagates: broken tie)
+    # ---- the two annotation calls of `df.iopaths(c, tlib) + df.interconnects(c, tlib)`, left to right.  A Python exception HERE, and
+    #      only here, is the counterpart of the model's `sdfDelay = none` / guard token (Model/SdfWave.lean, driver `sdfwave`)
+    real_exc = None
+    with quiet():
+        try:
+            delays = df.iopaths(c, tlib)
+        except Exception as ex:
+            real_exc = ('iopaths', ex)
+        if real_exc is None:
+            try:
+                delays = delays + df.interconnects(c, tlib)
+            except Exception as ex:
+                real_exc = ('interconnects', ex)
+    # ---- the two tables READ OFF THE NETLIST by the model (netPinLine / netIcLine over the canonical dump, the node names and
+    #      tlib.pin_index) against the tables exported from the real circuit by structural search; the composition uses the model's
+    pins, ics = tables(case, c)
+    pidx = ';'.join(f'{pct(k)}:{pct(pn)}:{int(v[0])}' for k in sorted(set(g['kind'] for g in case['gates']))
+                    for pn, v in tlib.cells[k][1].items()) or '~'
+    pq = ';'.join(f"{pct(g['inst'])}:{pct(pn)}" for g in case['gates'] for pn in g['ins']) or '~'
+    iq = ';'.join(f"{pct(drv[1])}:{'~' if drv[0] == 'port' else pct(drv[2])}:{pct(dst[1])}:{'~' if dst[0] == 'port' else pct(dst[2])}"
+                  for sig, drv, dst in case['pairs']) or '~'
+    tabs = common.run_driver([f"sdftabs {circ.dump_names(c)} {circ.dump_net(c).replace(' ', '')} {pidx} {pq} {iq}"])[0]
+    if tabs != f'{pins} # {ics}':
+        bad.append(('pin / fork tables read off the netlist (netPinLine, netIcLine)', f'{pins} # {ics}'[:300], tabs[:300]))
+        return bad, info
+    pins, ics = tabs.split(' # ')
+    if real_exc is not None:
+        # the real expression raises: no array, no simulator.  The model must answer its error token for exactly this exit:
+        #   TypeError in interconnects() (`for .. in None`: no block without INSTANCE name)  <->  raise:interconnects (sdfDelay = none)
+        #   ValueError in interconnects() (tuple unpacking of a name with two '/')            <->  raise:slash (guard slashOK)
+        # every other exception (and every exception in iopaths(), which is total in the model) has no counterpart: mismatch
+        call, ex = real_exc
+        ans = common.run_driver([f"sdfwave {case['mode']} {L} {pct(case['sdf'])} {pins} {ics} ~ 4 ~"])[0]
+        want = {('interconnects', 'TypeError'): 'raise:interconnects', ('interconnects', 'ValueError'): 'raise:slash'}.get(
+            (call, type(ex).__name__))
+        if want == 'raise:interconnects' and has_top(case): want = None   # a TypeError with a top-level block is something else
+        info['real_raise'] = f'{call}:{type(ex).__name__}'
+        if want is None or ans != want:
+            bad.append((f'{call}() raises {type(ex).__name__}: {ex}'[:200], f'raise in {call}()', ans[:120]))
+        return bad, info
+    sims, strip, caps = 3, case['strip'], case['caps']
+    ws = wc.make_sim(c, delays, sims, c_caps=caps, strip=strip)
+    ws.simctl_int[1] = 1                      # data set per lane
+    ws.simctl_int[0] = case['datasets']
+    srng = random.Random(case['sseed'])
+    i, t, f = wc.rand_stim(srng, ws.s_len, sims, tmax=30)
+    wc.assign(ws, i, t, f)
+    wc.overwrite_inputs(ws, srng, p=0.6, tmax=30)
+    # ---- model: op rows / tables of the SimOps model, value sources through the model's stems
+    order = [n.index for n in c.topological_order()]
+    mans = common.run_driver(simcorr.model_lines(c, strip, False, str(caps), 4, order))[1]
+    real_tabs = simcorr.fmt_real(ws)
+    if real_tabs != mans:
+        bad.append(('SimOps model tables (ops ; level_starts ; c_locs ; c_caps ; c_len)', real_tabs[:300], mans[:300]))
+        return bad, info
+    mf = mans.split(' ; ')
+    rows = [[int(x) for x in r.split(',')] for r in mf[0].split(' ') if r]
+    stems = wc.model_stems(c, strip)
+    ops = '/'.join(','.join(str(x) for x in r[:2] + [stems.get(v, v) for v in r[2:6]] + r[2:6]) for r in rows) or '~'
+    cc0 = np.array(ws.c)
+    lanes = []
+    for sim in range(sims):
+        st = []
+        for s_loc in ws.pippi_s_locs:
+            idx = ws.ppi_offset + int(s_loc)
+            st.append(f'{idx}={read_wv(cc0, int(ws.c_locs[idx]), int(ws.c_caps[idx]), sim)}')
+        lanes.append(f"{case['datasets'][sim]}@{'|'.join(st) or '~'}")
+    with common.quiet():
+        ws.c_prop()
+    ans = common.run_driver([f"sdfwave {case['mode']} {L} {pct(case['sdf'])} {pins} {ics} {ops} {mf[3]} {'/'.join(lanes)}"])[0]
+    if ' # ' not in ans:   # the real calls returned arrays: an error token of the model (`raise:..`, `noparse`) is a mismatch
+        bad.append(('driver sdfwave', 'arrays and waveforms (iopaths() + interconnects() did not raise)', ans[:300]))
+        return bad, info
+    arr_s, lanes_s = ans.split(' # ', 1)
+    # ---- (i) the delay array, all three data sets
+    marr = np.zeros((3, L, 2, 2))
+    if arr_s != '~':
+        for item in arr_s.split(','):
+            k, v = item.split('=')
+            d, l, ip, op = map(int, k.split('.'))
+            marr[d, l, ip, op] = int(v) / float(TICKS)
+    if delays.shape != marr.shape or not np.array_equal(delays, marr):
+        bad.append(('delay array iopaths + interconnects', json.dumps(sparse(delays))[:300], json.dumps(sparse(marr))[:300]))
+    info['nonzero_delays'] = int(np.count_nonzero(delays))
+    # ---- (ii) waveforms: every output slot (region read through c_locs / c_caps of the SLOT index), every written signal
+    cc = np.array(ws.c)
+    written = set(r[1] for r in rows) | set(ws.ppi_offset + int(s) for s in ws.pippi_s_locs)
+    info['transitions'] = 0
+    for sim, lane in enumerate(lanes_s.split(' / ')):
+        toks = lane.split(' ')
+        for s_loc in ws.poppo_s_locs:
+            n = c.s_nodes[int(s_loc)]
+            if len(n.ins) == 0 or n.ins[0] is None: continue
+            l = int(n.ins[0].index)
+            j = ws.ppo_offset + int(s_loc)
+            real = read_wv(cc, int(ws.c_locs[j]), int(ws.c_caps[j]), sim)
+            model = toks[stems.get(l, l)] if stems.get(l, l) < len(toks) else '<none>'
+            info['transitions'] += sum(1 for x in real.split(':')[0].split(',') if x not in ('-', 'm', ''))
+            if real != model:
+                bad.append((f'output slot of {n.name} (lane {sim}, data set {case["datasets"][sim]})', real, model))
+        for idx in sorted(written):
+            if idx >= len(toks) or int(ws.c_locs[idx]) < 0 or idx in (ws.tmp_idx, ws.tmp2_idx): continue
+            real = read_wv(cc, int(ws.c_locs[idx]), int(ws.c_caps[idx]), sim)
+            if real != toks[idx]:
+                bad.append((f'signal {idx} (lane {sim})', real, toks[idx]))
+    return bad, info
+
+
+def gen_wave_case(rng, mode, notop=False):
+    case = gen_case(rng, rng.choice(['oracle', 'oracle', 'overlap']), wave=True, notop=notop)
+    case.update({'mode': mode, 'strip': rng.random() < 0.4, 'caps': rng.choice([16, 16, 32]), 'sseed': rng.randint(0, 2 ** 31 - 1),
+                 'datasets': rng.choice([[0, 1, 2], [0, 1, 2], [2, 0, 1], [1, 1, 0]])})
+    return case
+
+
+def sdf_wave(ck, n, mode):
+    """clause sdf-wave: the real timing data path against the composition of the models"""
+    for it in range(n):
+        case = gen_wave_case(ck.rng, mode, notop=(it % 8 == 5))   # every 8th case: a file without top-level block
+        ents, tags = describe(case)
+        try:
+            bad, info = eval_wave_case(case)
+        except Exception as ex:
+            # eval_wave_case catches the exceptions of df.iopaths() / df.interconnects() itself and compares them with the model's
+            # error token; an exception anywhere else (sdf.parse, WaveSim, the driver, the harness) is never "agreement"
+            ck.hist['sdf-wave:error:' + type(ex).__name__] += 1
+            ck.case(key=('sdf-wave', case['verilog'], case['sdf']), nontrivial=False, tag=['stream:sdf-wave', 'sdf-wave:error'])
+            ck.broken_tie('timing data path (sdf-wave)', f'{type(ex).__name__}: {ex}'[:300], inp=case)
+            continue
+        if 'real_raise' in info:
+            # the real expression raises in one of the two annotation calls; `bad` is empty iff the model answers the matching token
+            ck.case(key=('sdf-wave', case['verilog'], case['bf'], case['sdf'], 'raise'), nontrivial=not bad,
+                    sample={'tlib': case['tlib'], 'branchforks': case['bf'], 'verilog': case['verilog'], 'sdf': case['sdf'][:1200],
+                            'real': info['real_raise']},
+                    tag=['stream:sdf-wave', 'sdf-wave:raise:' + info['real_raise']])
+            for what, real, model in bad[:3]:
+                ck.broken_tie(f'timing data path (sdf-wave): {what}', f'real {real} != model {model}'[:400], inp=case)
+            continue
+        ck.case(key=('sdf-wave', case['verilog'], case['bf'], case['sdf'], case['strip'], case['sseed']),
+                nontrivial=info.get('nonzero_delays', 0) > 0 and info.get('transitions', 0) > 0,
+                sample={'tlib': case['tlib'], 'branchforks': case['bf'], 'strip_forks': case['strip'], 'verilog': case['verilog'], 'sdf': case['sdf'][:1200]},
+                tag=['stream:sdf-wave', f"sdf-wave:strip:{case['strip']}", f"sdf-wave:branchforks:{case['bf']}", f"sdf-wave:caps:{case['caps']}"]
+                    + [t for t in tags if t.startswith(('tlib:', 'posedge', 'negedge', 'interconnect', 'repeated'))])
+        ck.hist['sdf-wave:compared'] += 1
+        for what, real, model in bad[:3]:
+            ck.broken_tie(f'timing data path (sdf-wave): {what}', f'real {real} != model {model}'[:400], inp=case)
+    # outcome counts of the clause (the histogram of the evidence keeps the largest classes only)
+    ck.extra['sdf_wave_outcomes'] = {k: v for k, v in ck.hist.items()
+                                     if k == 'sdf-wave:compared' or k.startswith(('sdf-wave:raise:', 'sdf-wave:error:'))}
+
+
 def malformed(ck, mode):
     """guards of the model: 0 or 3 value lists -> the real transformer raises; the model answers `raise`"""
     from kyupy import sdf
@@ -890,7 +1112,9 @@ def robustness_notes(ck, notes):
 
 
 def run(ck):
-    ck.prove([], TARGETS, theorems())
+    ck.prove([], TARGETS[:1], theorems())
+    import dump_tables
+    ck.prove([dump_tables.generate], TARGETS[1:], theorems_wave())   # separate module: the demo circuit uses the generated prefix table
     mode = probe_mode()
     ck.extra['start_mode_of_code_under_test'] = mode
     notes = {'__text_mut__': 2}
@@ -904,6 +1128,7 @@ def run(ck):
     run_stream(ck, n // 2, 'overlap', mode, notes)
     malformed(ck, mode)
     lookup_raises(ck, mode)
+    sdf_wave(ck, 60 * ck.scale, mode)
     try:
         text_level(ck, HAND_TEXTS, 'hand-written')
         for t in HAND_TEXTS:
@@ -922,6 +1147,7 @@ def run(ck):
                     "instance name (theorems none_lost_false_lastWins, lastWins_keeps_last_only), 'merge' = every block kept (none_lost)")
     ck.assumptions += ['grammar/lexer of sdf.py: modelled (Model/SdfText.lean, round-trip theorem) and compared with lark on generated, hand-written and mutated texts; that lark implements the grammar as the model reads it is checked there, not proved',
                        'float(), NumPy fancy assignment and the Verilog reader are exercised through generated texts, not modelled',
+                       'timing data path (Props/C14Wave.lean): theorems about the composition of the models (text -> block list -> sdfDelay -> simopsMap -> waveforms on the memory layout); tie = clause sdf-wave (delay array and the waveform in the region of every output slot of the real WaveSim == driver sdfwave; df.interconnects() raising TypeError on a file without top-level block == model answer none, token raise:interconnects), plus the ties of C03/C08 for _wave_eval and SimOps',
                        'the look-ups are compared twice: through two tables (line feeding a pin; fork line between two pins) exported from the '
                        'real Circuit by structural search (reader/reader_pin, fork names), independent of sdf.py, and through the modelled '
                        'look-ups pinLook/icLook (Model/SdfCirc.lean) fed with the circuit dump and tlib.cells, per entry (line index / warn / raise)',
